@@ -22,6 +22,15 @@ def key(func, node_or_text):
     return "%s|%s" % (func.short, t)
 
 
+def rname(func, e):
+    """resolved dotted path of a Name/Attribute chain (`self.mesg.body`), single-assignment local aliases
+    (`previous = self.mesg`) and import aliases expanded; None for anything else"""
+    repo = getattr(func.module, "_repo", None)
+    if repo is None or not isinstance(e, (ast.Name, ast.Attribute)):
+        return dotted(e)
+    return repo.resolve(func.module, func, e)
+
+
 def calls_to(repo, func, targets, own=True):
     """Call nodes in func whose resolved target is in `targets` (qualified names; a trailing
     '*' matches a prefix)."""
